@@ -28,6 +28,7 @@ import (
 type poolSkel struct {
 	fset   *token.FileSet
 	tokens []string
+	idle   bool // also note connsLock Lock/Unlock, copies / aliases / truncations of c.conns, range loops (CloseIdleConnections)
 }
 
 func (s *poolSkel) expr(e ast.Node) string {
@@ -97,6 +98,16 @@ func (s *poolSkel) stmt(guards []string, st ast.Stmt) {
 	switch x := st.(type) {
 	case nil:
 	case *ast.ExprStmt:
+		if s.idle {
+			if ce, ok := x.X.(*ast.CallExpr); ok {
+				if sel, ok := ce.Fun.(*ast.SelectorExpr); ok && (sel.Sel.Name == "Lock" || sel.Sel.Name == "Unlock") && strings.HasSuffix(s.expr(sel.X), ".connsLock") {
+					s.emit(guards, strings.ToLower(sel.Sel.Name))
+				}
+				if callName(ce) == "CloseConn" {
+					s.emit(guards, "CloseConn")
+				}
+			}
+		}
 		s.calls(guards, x.X, false)
 	case *ast.GoStmt:
 		if name := callName(x.Call); poolCalls[name] {
@@ -112,6 +123,18 @@ func (s *poolSkel) stmt(guards []string, st ast.Stmt) {
 			if sel, ok := l.(*ast.SelectorExpr); ok && sel.Sel.Name == "conns" && i < len(x.Rhs) {
 				if ce, ok := x.Rhs[i].(*ast.CallExpr); ok && callName(ce) == "append" {
 					s.emit(guards, "append c.conns")
+				} else if s.idle {
+					s.emit(guards, "c.conns = "+s.expr(x.Rhs[i]))
+				}
+			}
+			if id, ok := l.(*ast.Ident); ok && s.idle && i < len(x.Rhs) {
+				// a local that is a fresh copy of c.conns (append(<other slice>, c.conns...)) or shares its backing array
+				rhs := s.expr(x.Rhs[i])
+				if ce, ok := x.Rhs[i].(*ast.CallExpr); ok && callName(ce) == "append" && len(ce.Args) == 2 && ce.Ellipsis.IsValid() &&
+					strings.HasSuffix(s.expr(ce.Args[1]), ".conns") && !strings.Contains(s.expr(ce.Args[0]), ".conns") {
+					s.emit(guards, id.Name+" = copy of c.conns")
+				} else if strings.Contains(rhs, ".conns") {
+					s.emit(guards, id.Name+" shares "+rhs)
 				}
 			}
 		}
@@ -151,7 +174,18 @@ func (s *poolSkel) stmt(guards []string, st ast.Stmt) {
 			cond = s.expr(x.Cond)
 		}
 		s.block(with(guards, "for "+cond), x.Body.List)
-	case *ast.SelectStmt, *ast.SwitchStmt, *ast.RangeStmt, *ast.DeclStmt, *ast.SendStmt, *ast.LabeledStmt, *ast.EmptyStmt:
+	case *ast.RangeStmt:
+		if s.idle {
+			s.block(with(guards, "range "+s.expr(x.X)), x.Body.List)
+			return
+		}
+		ast.Inspect(x, func(n ast.Node) bool {
+			if ce, ok := n.(*ast.CallExpr); ok && poolCalls[callName(ce)] {
+				s.emit(guards, "in-range "+callName(ce))
+			}
+			return true
+		})
+	case *ast.SelectStmt, *ast.SwitchStmt, *ast.DeclStmt, *ast.SendStmt, *ast.LabeledStmt, *ast.EmptyStmt:
 		// not part of the hand-off skeleton of these functions
 		ast.Inspect(x, func(n ast.Node) bool {
 			if ce, ok := n.(*ast.CallExpr); ok && poolCalls[callName(ce)] {
@@ -185,6 +219,14 @@ func genPoolShape(p *pkgInfo, out string) {
 		s.block(nil, fd.Body.List)
 		fmt.Fprintf(&b, "/-- hand-off skeleton of (%s).%s: guarded interesting actions in source order -/\ndef %s : List String := %s\n\n",
 			f.recv, f.fn, f.lean, leanStrList(s.tokens))
+	}
+	// CloseIdleConnections: what leaves the lock section must be a copy of the idle list, not the list's backing array
+	if fd := p.funcDecl("HostClient", "CloseIdleConnections"); fd == nil || fd.Body == nil {
+		b.WriteString("-- MISSING (HostClient).CloseIdleConnections\n\n")
+	} else {
+		s := &poolSkel{fset: token.NewFileSet(), idle: true}
+		s.block(nil, fd.Body.List)
+		fmt.Fprintf(&b, "/-- skeleton of (HostClient).CloseIdleConnections: lock section, what happens to c.conns, the closing loop -/\ndef poolShape_CloseIdleConnections : List String := %s\n\n", leanStrList(s.tokens))
 	}
 	b.WriteString("end Fh.Gen\n")
 	writeIfChanged(filepath.Join(out, "PoolShape.lean"), b.Bytes())
